@@ -1,5 +1,23 @@
 // Contracts and proof harnesses for contracts/axelar-gas-service/src/contract.rs.
 use super::*;
+// named explicitly: the harness must not depend on which of these the file under verification happens to import
+use soroban_sdk::contract;
+use soroban_sdk::contractimpl;
+use soroban_sdk::token;
+use soroban_sdk::Address;
+use soroban_sdk::Bytes;
+use soroban_sdk::Env;
+use soroban_sdk::String;
+use crate::error::ContractError;
+use crate::event;
+use crate::interface::AxelarGasServiceInterface;
+use crate::storage_types::DataKey;
+use axelar_soroban_std::ttl::extend_instance_ttl;
+use axelar_soroban_std::ensure;
+use axelar_soroban_std::interfaces;
+use axelar_soroban_std::types::Token;
+use axelar_soroban_std::Ownable;
+use axelar_soroban_std::Upgradable;
 use soroban_sdk::shim::{self, inst, pers, temp, Wordy, Words, OWNER_KEY};
 use soroban_sdk::Symbol;
 
